@@ -5,9 +5,14 @@
  R2 key agreement: every entry of the encryption dictionary that governs decryption and that the
     writer emits (V, R, Length, CF, CFM, StmF, StrF, EncryptMetadata, O, U, OE, UE, P) is read by the
     reader's encryption-dictionary parser.
+ R3 sibling agreement of the metadata flag (Algorithm 2 step f): the user-password and the owner-password unlock routines hand
+    the security handler an `encrypt_metadata` flag computed from the same inputs — the dictionary's /EncryptMetadata and the
+    *document's* revision /R (not the cipher-proxy revision of the handler object, which is R3 for an R4 file with /CFM /V2).
+    A routine that derives the flag from different state unlocks the same file with one password and refuses the other.
 Not decided: key derivation and any byte-level agreement with another implementation.
 """
 from .. import lib as L
+from .. import flow as FL
 
 EXPLANATION = __doc__
 R = "parser::reader::PdfReader::<R>::"
@@ -15,6 +20,7 @@ GOVERNING = ["V", "R", "Length", "CF", "CFM", "StmF", "StrF", "EncryptMetadata",
 
 
 def run(ctx):
+    r3_metadata_flag_siblings(ctx)
     facts = ctx.facts
     gc = ctx.fn(R + "get_compressed_object", "anchor")
     dec = L.calls_to(gc, [R + "decrypt_object_if_needed"])
@@ -58,3 +64,34 @@ def run(ctx):
             ctx.violation("R2", key, "the writer emits /%s in the encryption dictionary but the reader's parser never reads it: a file "
                           "whose /%s differs from the reader's built-in assumption (e.g. /StrF /Identity with encrypted streams) is "
                           "decrypted wrongly" % (k, k), "parser::encryption_handler")
+
+
+def r3_metadata_flag_siblings(ctx):
+    facts = ctx.facts
+    H = "parser::encryption_handler::EncryptionHandler::"
+    sets = {}
+    for name in ("unlock_user_r2_r4", "unlock_with_owner_password"):
+        fn = ctx.fn(H + name, "R3")
+        inputs = set()
+        nflags = 0
+        for b, c, a, d, t, u in fn.calls():
+            if not isinstance(c, dict) or "StandardSecurityHandler" not in (c.get("p") or ""):
+                continue
+            for o in a:
+                pl = FL.op_place(o)
+                if pl is None or fn.locals[pl[0]] != "bool":
+                    continue
+                nflags += 1
+                inputs |= set(x for x in L.cond_atoms(fn, o, depth=8) if not x.startswith("param:"))
+        sets[name] = (inputs, nflags, fn)
+    (ia, na, fa), (ib, nb, fb) = sets["unlock_user_r2_r4"], sets["unlock_with_owner_password"]
+    if not ctx.floor("R3", "metadata flags handed to the security handler", min(na, nb), 1):
+        return
+    key = "unlock:encrypt_metadata-flag-inputs-agree"
+    if ia == ib:
+        ctx.ok("R3", key, "both routines derive the flag from %s" % sorted(ia), fb.where())
+    else:
+        ctx.violation("R3", key, "the owner-password unlock derives the `encrypt_metadata` flag it hands to the security handler from "
+                      "%s, the user-password unlock from %s: for a file on which the two differ (e.g. V4/R4 with the RC4 crypt filter "
+                      "and /EncryptMetadata false, whose handler object reports revision 3) one password opens the file and the other "
+                      "correct password is refused" % (sorted(ib), sorted(ia)), fb.where(), {"user": sorted(ia), "owner": sorted(ib)})
